@@ -590,6 +590,11 @@ func (ex *Exec) step(s *State, instr ssa.Instruction) []*State {
 		// (DESIGN 3.4(3)); arguments are evaluated, nothing runs.
 		ex.callArgs(s, &in.Call)
 		ex.usedAssume["A-ATOMIC: goroutine bodies verified as separate steps"] = true
+		if mc, ok := in.Call.Value.(*ssa.MakeClosure); ok && len(in.Call.Args) == 0 {
+			// `go func() {...}()`: the closure runs as a separate step; if it is
+			// under contract its precondition must hold when it is started
+			ex.callbackEnabled(s, in, ex.val(s, mc))
+		}
 		if in.Call.StaticCallee() == nil && !in.Call.IsInvoke() {
 			// `go f(...)` on a function value (a callback held in a variable or
 			// field): spawning counts as an invocation of f (ghost calls(f)),
